@@ -20,7 +20,7 @@ STR_ALPHABET = ['a', 'b', 'x', "'", '"', ', ', ': ', '###', '$$$', '=', '[', ']'
 DEFAULT_FEAT = {
     'namespaces': True, 'multi_config': True, 'contexts': True, 'global_vars': True, 'objects': True, 'patterns': True,
     'optional_inputs': True, 'groups': True, 'module_tasks': True, 'adversarial_strings': False, 'abstract': True,
-    'excluded': True, 'yaml': True, 'same_file_twice': True, 'data_kinds': DATA_KINDS, 'max_modules': 3, 'max_tasks': 4,
+    'excluded': True, 'yaml': True, 'same_file_twice': True, 'data_kinds': DATA_KINDS, 'max_modules': 4, 'max_tasks': 4,
     'name_in_config': True, 'dtypes': True, 'ignore': True, 'drop_default': True, 'confusable_names': True,
 }
 
@@ -136,9 +136,24 @@ def gen_spec(rng: random.Random, feat=None):
     ns_words = rng.sample(NS_WORDS, len(NS_WORDS))
     spec_ns_words = ns_words
     word_of_file = {}
-    for k in range(n_mod):
-        for j in range(k + 1, n_mod):
-            if rng.random() < 0.7 or j == k + 1:
+    spec_twin_files = []
+    pairs_ = []
+    for j in range(1, n_mod):
+        ps = [k for k in range(j) if rng.random() < 0.5] or [rng.randrange(j)]     # every file is used by at least one earlier file
+        pairs_ += [(k, j) for k in ps]
+    forced_twin = feat['namespaces'] and n_mod == 4 and len(ns_words) >= 2 and rng.random() < 0.4
+    if forced_twin:
+        # root uses file1 as W and file2 as A; file2 uses file3 as W: namespaces `W` and `A::W` hold different pipelines
+        pairs_ = [(0, 1), (0, 2), (2, 3)]
+        w_, a_ = ns_words.pop(), ns_words.pop()
+        word_of_file.update({1: w_, 2: a_, 3: w_})
+        spec_twin_files.extend([1, 3])
+    for (k, j) in sorted(pairs_):
+        if True:
+            if forced_twin:
+                mounts[(k, j)] = word_of_file[j]
+                continue
+            if True:
                 ns = None
                 if feat['namespaces'] and rng.random() < 0.6:
                     if j not in word_of_file and ns_words:
@@ -148,6 +163,30 @@ def gen_spec(rng: random.Random, feat=None):
                         word_of_file[j] = w
                     ns = word_of_file.get(j)
                 mounts[(k, j)] = ns
+    # the same namespace word for two DIFFERENT files that never lie on one path and have no common parent: namespaces such as `n` and `a::n`
+    # (suffix-related) then hold different pipelines
+    if feat['namespaces'] and rng.random() < 0.35 and len(word_of_file) >= 2:
+        def reach(a, b, seen=()):
+            return any(k_ == a and (j_ == b or (j_ not in seen and reach(j_, b, seen + (j_,)))) for (k_, j_) in mounts)
+        js = list(word_of_file)
+        rng.shuffle(js)
+        done_ = False
+        for j1 in js:
+            for j2 in js:
+                if j1 >= j2 or done_:
+                    continue
+                parents1 = {k_ for (k_, j_) in mounts if j_ == j1}
+                parents2 = {k_ for (k_, j_) in mounts if j_ == j2}
+                if reach(j1, j2) or reach(j2, j1) or (parents1 & parents2):
+                    continue
+                # also no parent of one may reach the other's parent with the same word on the way: keep it simple, require different depths
+                w1 = word_of_file[j1]
+                for (k_, j_) in list(mounts):
+                    if j_ == j2 and mounts[(k_, j_)] is not None:
+                        mounts[(k_, j_)] = w1
+                word_of_file[j2] = w1
+                done_ = True
+                spec_twin_files.extend([j1, j2])
     mod_path = lambda m: '.'.join([pkg] + ([m['package']] if m.get('package') else []) + [m['name']])  # noqa
     for mi, m in enumerate(modules):
         mp = mod_path(m)
@@ -259,6 +298,7 @@ def gen_spec(rng: random.Random, feat=None):
                             x['part'] = pname
                     break
     # ---- inputs ------------------------------------------------------------------------------------------------
+    spec['ns_twin_files'] = spec_twin_files
     add_inputs(rng, spec, fnames, mounts, feat, extra_mounts)
     spec['fnames'] = fnames
     spec['extra_mounts'] = extra_mounts
@@ -427,9 +467,25 @@ def add_inputs(rng, spec, fnames, mounts, feat, extra_mounts=()):
                             t['inputs'].append({'form': 'pattern_all' if use_all else 'pattern', 'ref': '(.*:)?(' + '|'.join(_re.escape(b) for b in bares) + ')'})
                         t['inputs'].sort(key=lambda i: (bool(i.get('in_parameters')), i['form'] in ('pattern', 'pattern_all')))
             # optional input that is really absent
-            if feat['optional_inputs'] and rng.random() < 0.1:
-                t['inputs'].append({'form': 'name', 'ref': 'absent_task_zz', 'optional': True, 'default': rng.choice([None, 5, 'd']),
-                                    'access': 'registry', 'registry_key': 'absent_task_zz', 'in_parameters': rng.random() < 0.5})
+            if feat['optional_inputs'] and (rng.random() < 0.1 or (mi in (spec.get('ns_twin_files') or []) and rng.random() < 0.6)):
+                absent = 'absent_task_zz'
+                twins_ = spec.get('ns_twin_files') or []
+                if mi in twins_ and rng.random() < 0.8:
+                    # two different files are mounted under namespaces that are suffix-related (`n`, `a::n`): name a task of the OTHER file
+                    oj = twins_[1] if mi == twins_[0] else twins_[0]
+                    cand_ = [slug_of(u_, pkg, modules[oj]).split(':')[-1] for u_ in modules[oj]['tasks'] if not u_.get('abstract')]
+                    cand_ = [c_ for c_ in cand_ if c_ not in {p_['name'] for p_ in t['params']}]
+                    if cand_:
+                        absent = rng.choice(cand_)
+                elif rng.random() < 0.5:
+                    # the name of a task that exists somewhere in the pipeline (usually not in this task's namespace: then it is absent here)
+                    others = [slug_of(u_, pkg, modules[j_]).split(':')[-1] for j_ in range(n_mod) if j_ != mi for u_ in modules[j_]['tasks'] if not u_.get('abstract')]
+                    taken_bares = {i_.get('ref', '').split('::')[-1].split(':')[-1] for i_ in t['inputs']} | {i_.get('arg') for i_ in t['inputs']}
+                    others = [o_ for o_ in others if o_ not in taken_bares and o_ not in {p_['name'] for p_ in t['params']}]
+                    if others:
+                        absent = rng.choice(others)
+                t['inputs'].append({'form': 'name', 'ref': absent, 'optional': True, 'default': rng.choice([None, 5, 'd']),
+                                    'access': 'registry', 'registry_key': absent, 'in_parameters': rng.random() < 0.5})
                 t['inputs'].sort(key=lambda i: bool(i.get('in_parameters')))
                 for pos, inp in enumerate([i for i in t['inputs'] if not i.get('in_parameters')]):
                     if inp.get('access') == 'index':
@@ -558,6 +614,8 @@ def add_context(rng, spec, root, feat):
             sources.append({'kind': kind, 'data': data, 'name': f'ctx{si}'})
     root['context'] = sources
     root['context_single'] = rng.random() < 0.7
+    root['context_reuse'] = rng.random() < 0.4
+    # contexts that share their first source (a base context reused alone and inside a list) are produced by history.make_variants
 
 
 # ---- deliberate construction errors ---------------------------------------------------------------------------------
